@@ -15,7 +15,9 @@ impl Utf8Accum {
         // Plain and stupid utf-8 validation
         // Bytes are supposed to be human input so it's okay to be not blazing fast
 
-        if byte >= 0xF8 {
+        if byte >= 0xF5 || byte == 0xC0 || byte == 0xC1 {
+            // these octets never appear in well-formed utf-8
+            self.expected = 0;
             return None;
         } else if byte >= 0xF0 {
             // this is first octet of 4-byte value
@@ -33,6 +35,21 @@ impl Utf8Accum {
             self.partial = 1;
             self.expected = 1;
         } else if byte >= 0x80 {
+            if self.expected > 0 && self.partial == 1 {
+                // second octet has restricted range after some first octets
+                // (overlong encodings, surrogates, values above U+10FFFF)
+                let valid = match self.buffer[0] {
+                    0xE0 => byte >= 0xA0,
+                    0xED => byte <= 0x9F,
+                    0xF0 => byte >= 0x90,
+                    0xF4 => byte <= 0x8F,
+                    _ => true,
+                };
+                if !valid {
+                    self.expected = 0;
+                    return None;
+                }
+            }
             if self.expected > 0 {
                 // this is one of other octets of multi-byte value
                 self.buffer[self.partial as usize] = byte;
